@@ -224,6 +224,21 @@ def check_amplitudes(ctx: Ctx, fi: FuncInfo, o: Orient, unit: Optional[str]):
             if not bad:
                 ctx.ok("OR-FLOW", fi, "amplitude index = sum bit_k 2^k of the encoding", t, tgt)
             continue
+        # `<QintClass>.from_bool(<own LSB-first bits>).value`: correct only if that class is at least as wide as
+        # every type using this method (QintImp keeps its value modulo 2**BIT_SIZE)
+        if isinstance(idx, ast.Attribute) and idx.attr == "value" and isinstance(idx.value, ast.Call) and isinstance(idx.value.func, ast.Attribute) and idx.value.func.attr == "from_bool" and len(idx.value.args) == 1 and norm(idx.value.args[0]) == "self.to_bool()":
+            k = ctx.repo.resolve_dotted(fi.module, norm(idx.value.func.value))
+            if isinstance(k, ClassInfo) and fi.cls is not None:
+                kw = None
+                for b in k.mro():
+                    if b.consts.get("BIT_SIZE") is not None:
+                        kw = const_value(b.consts.get("BIT_SIZE"))
+                        break
+                widths = [const_value(c.consts.get("BIT_SIZE")) for c in ctx.repo.subclasses(fi.cls) + [fi.cls] if c.consts.get("BIT_SIZE") is not None]
+                widths = [w for w in widths if isinstance(w, int)]
+                if isinstance(kw, int) and widths:
+                    ctx.check(kw >= max(widths), "OR-FLOW", fi, "amplitude index = sum bit_k 2^k of the encoding", t, f"the index is read back through {k.name}, which keeps its value modulo 2**{kw}, but {fi.cls.name} has subclasses of up to {max(widths)} bits: bits {kw} and above of the encoding are dropped and the one-hot entry lands on the wrong basis state", tgt)
+                    continue
         raise AnchorError(fi.short, f"amplitude index `{t}` in a form outside the tables")
     # vector length
     alloc = [n for n in walk_no_nested(fi.node) if isinstance(n, ast.Assign) and isinstance(n.value, ast.BinOp) and isinstance(n.value.op, ast.Mult)]
